@@ -215,3 +215,44 @@ Proof.
   exists fs, (gs i "name"), (deb_version i), (deb_arch_value archtab i). repeat split; try assumption.
   rewrite (strip_epoch_deb_version i He Hor). unfold model_filename, deb_arch_value. rewrite Hp. reflexivity.
 Qed.
+
+(* ---------- ipk: the same for the control text of an ipk ---------- *)
+Definition ipk_fields_list (archtab : list (str * str)) (i : minfo) (installed_kib : Z) : list dfield :=
+  [mkf "Architecture" (translate_arch archtab (gs i "ipk.arch") (gs i "arch")); descf (gs i "description");
+   mkf "Maintainer" (ipk_maintainer i); mkf "Package" (gs i "name");
+   mkf "Priority" (dflt (gs i "priority") (B "optional")); mkf "Version" (deb_version i)]
+  ++ optf "ABIVersion" (gs i "ipk.abi_version")
+  ++ (match gl i "ipk.alternatives" with [] => [] | l => [mkf "Alternatives" (join_with (B ", ") l)] end)
+  ++ (if Z.eqb (gn i "ipk.auto_installed") 1 then [mkf "Auto-Installed" (B "yes")] else [])
+  ++ optl "Conflicts" (gl i "conflicts")
+  ++ optl "Depends" (gl i "depends")
+  ++ (if Z.eqb (gn i "ipk.essential") 1 then [mkf "Essential" (B "yes")] else [])
+  ++ optf "Homepage" (gs i "homepage")
+  ++ optf "License" (gs i "license")
+  ++ (if Z.eqb installed_kib 0 then [] else [mkf "Installed-Size" (dec installed_kib)])
+  ++ optl "Pre-Depends" (gl i "ipk.predepends")
+  ++ optl "Provides" (non_empty_items (gl i "provides"))
+  ++ optl "Recommends" (gl i "recommends")
+  ++ optl "Replaces" (gl i "replaces")
+  ++ optf "Section" (gs i "section")
+  ++ optl "Suggests" (gl i "suggests")
+  ++ optl "Tags" (gl i "ipk.tags")
+  ++ optf "Vendor" (gs i "vendor")
+  ++ customf (ipk_fields (gf i "ipk.fields")).
+
+Theorem ipk_control_is_field_text archtab i k : ipk_control archtab i k = d_write (ipk_fields_list archtab i k).
+Proof.
+  unfold ipk_control, ipk_fields_list.
+  rewrite !d_write_app.
+  repeat match goal with |- context [d_write (?f :: ?g :: ?r)] => rewrite (d_write_cons f (g :: r)) end.
+  rewrite <- !opt_field_optf, <- !opt_list_optl, <- custom_fields_customf, <- description_descf.
+  destruct (gl i "ipk.alternatives"); destruct (Z.eqb (gn i "ipk.auto_installed") 1); destruct (Z.eqb (gn i "ipk.essential") 1);
+    destruct (Z.eqb k 0); rewrite <- ?field_mkf; norm_app; reflexivity.
+Qed.
+
+(* a reader recovers the list when every field of it is well formed (the description always is) *)
+Theorem ipk_control_reads_back archtab i k : forallb wf_dfield (ipk_fields_list archtab i k) = true ->
+  d_read (ipk_control archtab i k) = Some (map kv_of (ipk_fields_list archtab i k)).
+Proof.
+  intros H. rewrite ipk_control_is_field_text. apply d_roundtrip. apply Forall_forall. intros f Hf. rewrite forallb_forall in H. apply H. exact Hf.
+Qed.
